@@ -355,6 +355,10 @@ func canaryBuf(n int) (buf []byte, check func() bool) {
 }
 
 func transformRoundTrip(name, entropyName string, block []byte, hint string) (what string, applied bool) {
+	return transformRoundTripJobs(name, entropyName, block, hint, 1)
+}
+
+func transformRoundTripJobs(name, entropyName string, block []byte, hint string, jobs uint) (what string, applied bool) {
 	defer func() {
 		if r := recover(); r != nil {
 			what = fmt.Sprintf("panic: %v", r)
@@ -365,7 +369,7 @@ func transformRoundTrip(name, entropyName string, block []byte, hint string) (wh
 	for int(bs) < n {
 		bs += 1024
 	}
-	ctx := map[string]any{"transform": name, "entropy": entropyName, "blockSize": bs, "size": uint(n), "bsVersion": uint(6), "jobs": uint(1)}
+	ctx := map[string]any{"transform": name, "entropy": entropyName, "blockSize": bs, "size": uint(n), "bsVersion": uint(6), "jobs": jobs}
 	if hint != "" {
 		transform.VerifSetDataType(ctx, hint)
 	}
@@ -402,7 +406,7 @@ func transformRoundTrip(name, entropyName string, block []byte, hint string) (wh
 	inBuf := make([]byte, max(blockLength, int(oIdx)+512))
 	copy(inBuf, dst[:oIdx])
 	outBuf, outOK := canaryBuf(blockLength)
-	ctx2 := map[string]any{"transform": name, "entropy": entropyName, "blockSize": bs, "size": uint(oIdx), "bsVersion": uint(6), "jobs": uint(1)}
+	ctx2 := map[string]any{"transform": name, "entropy": entropyName, "blockSize": bs, "size": uint(oIdx), "bsVersion": uint(6), "jobs": jobs}
 	t2, err := transform.New(&ctx2, packed)
 	if err != nil {
 		return "construction (inverse side): " + err.Error(), applied
@@ -487,6 +491,20 @@ func runC13(c *Ctx, _ []string) {
 				n = r.Range(1, 600)
 			}
 			try(name, fastEntropy[r.Intn(len(fastEntropy))], sh, n, hints[r.Intn(len(hints))], r.U64())
+		}
+	}
+	// blocks above the 4 MiB threshold of the parallel inverse BWT (8 chunks split among the jobs of the block), chunk sizes odd and even
+	for i, n := range []int{4<<20 + 8, 5<<20 + 24, 5<<20 + 77} {
+		for _, jobs := range []uint{1, 3, 5} {
+			block := mkData("text", n, uint64(700+i))
+			c.Count("evaluations", 1)
+			c.Hist("transform", "BWT")
+			what, _ := transformRoundTripJobs("BWT", "NONE", block, "", jobs)
+			nontrivial++
+			if what != "" {
+				c.Violation(map[string]any{"what": fmt.Sprintf("BWT (jobs %d): %s", jobs, what), "transform": "BWT", "data": describe("text", n, uint64(700+i)), "jobs": jobs,
+					"key": fmt.Sprintf("impl:BWT above 4 MiB: %s", strings.SplitN(what, "(", 2)[0])})
+			}
 		}
 	}
 	// almost valid UTF-8: a long sequence with an ASCII character in place of a continuation byte must be declined or restored exactly
